@@ -10,8 +10,8 @@ use std::io::Cursor;
 
 pub const META: PropMeta = PropMeta {
     level: "exploration",
-    rule: "fragmented movies are synthesised by the independent reference encoder: 1..4 tracks, 1..F fragments, per fragment a subset of tracks, one run per traf with 0..S samples carrying per-sample sizes, tfdt v0/v1, tfhd flag combinations (explicit base-data-offset | default-base-is-moof | neither, the last only for the first traf of a moof), per-sample / tfhd-default / trex-default durations, composition offsets present or not, positive and negative data offsets (mdat after or before its moof), filler before run data; two trafs of one track in a moof, trafs without trun, 64-bit moof/mdat headers, an occasional sample above 64 KiB, a final mdat with size 0; each movie is read both as one stream and as init segment + separately opened media segment and every sample compared with the builder's ground truth (offset, bytes, start time, duration, composition offset, count). Sync flags are not asserted. Non-trivial = some track has >= 2 fragments and (a duration default is inherited, or an explicit base offset, or a negative data offset, or a run with >= 2 samples). Distinct = structural hash of the movie.",
-    assumptions: &["reference encoder renders ISO/IEC 14496-12 movie fragments correctly", "one trun per traf; 'neither' base mode only in the first traf of a moof, where ISO and the property statement agree"],
+    rule: "fragmented movies are synthesised by the independent reference encoder: 1..4 tracks, 1..F fragments, per fragment a subset of tracks, one run per traf with 0..S samples carrying per-sample sizes, tfdt v0/v1, tfhd flag combinations (explicit base-data-offset | default-base-is-moof | neither, the last only for the first traf of a moof), per-sample / tfhd-default / trex-default durations, composition offsets present or not, positive and negative data offsets (mdat after or before its moof), filler before run data; two trafs of one track in a moof, trafs without trun, 64-bit moof/mdat headers, an occasional sample above 64 KiB, a final mdat with size 0; each movie is read as one stream, as init segment + separately opened media segment, and with that segment opened against readers that already hold fragments (the whole-file reader, a segment reader) and every sample compared with the builder's ground truth (offset, bytes, start time, duration, composition offset, count). Sync flags are not asserted. Non-trivial = some track has >= 2 fragments and (a duration default is inherited, or an explicit base offset, or a negative data offset, or a run with >= 2 samples). Distinct = structural hash of the movie.",
+    assumptions: &["reference encoder renders ISO/IEC 14496-12 movie fragments correctly", "one trun per traf; 'neither' base mode only in the first traf of a moof, where ISO and the property statement agree", "a reader derived with read_fragment_header describes the segment it was given and nothing else, whatever fragments its parent reader holds (the behaviour of the unchanged tree: tracks are rebuilt from the parent's moov)"],
 };
 
 const OPTS: SampleCheckOpts = SampleCheckOpts { check_sync: false, prefix: "c09" };
